@@ -197,7 +197,7 @@ namespace _ST_PRIVATE
     }
 
     inline void format_char(const ST::format_spec &format,
-                            ST::format_writer &output, int ch)
+                            ST::format_writer &output, unsigned long long ch)
     {
         if (format.minimum_length != 0 || format.pad != 0)
             ST_ASSERT(false, "Char formatting does not currently support padding");
@@ -205,7 +205,10 @@ namespace _ST_PRIVATE
         // Don't need to nul-terminate this, since we just write a fixed length
         char utf8[4];
         char *dest = utf8;
-        conversion_error_t error = write_utf8(dest, ch);
+        // Negative and oversized values arrive here as large unsigned values
+        conversion_error_t error = conversion_error_t::out_of_range;
+        if (ch <= 0x10FFFF)
+            error = write_utf8(dest, static_cast<char32_t>(ch));
         if (error != conversion_error_t::success)
             append_chars(dest, badchar_substitute_utf8, badchar_substitute_utf8_len);
 
